@@ -18,7 +18,7 @@ EXPLANATION = (
     "enqueued; (reader-never-awaits-permit) no awaiting acquire form is called on a semaphore anywhere in the WebSocket server. "
     "(catch-unwind-shape) in the spawned closure dispatch is called only inside the closure given to catch_unwind; the panic "
     "arm reports the panic and builds an InternalError response from the request only for a non-notify; the closure never "
-    "returns early past the permit. (execution-forwarded) every HandlerErased impl whose handle delegates to another "
+    "returns early past the permit. (blocking-marker-in-raw) each with_*_blocking constructor wraps the leaf handler in the off-reader marker and registers that as the route's raw handler, so rebuilding the dispatched slot from raw when middleware is registered later keeps the route off-reader. (execution-forwarded) every HandlerErased impl whose handle delegates to another "
     "HandlerErased overrides execution - MiddlewarePipeline forwards the inner handler's mode, the blocking wrapper returns "
     "OffReader - and the reader switches on execution() with both arms present. Not decided: enumeration of release orders and "
     "mixes of returning/erroring/panicking handlers (schedules)."
@@ -171,6 +171,32 @@ def run(facts, R):
         hs = Sym(hc)
         mp = [(i, t) for i, t in hc.calls() if t["callee"]["name"] == "map" and "offreader_limit" in render_n(hs.op(t["args"][0]))]
         R.check(len(mp) == 1 and not in_cycle(hc, mp[0][0]), "permit-before-spawn", hc.path, "created once, outside loops, from config.offreader_limit", "offreader_limit.map sites: %d" % len(mp), hc.span)
+
+    # ---------------- blocking-marker-in-raw: the off-reader marker wraps the leaf handler that is stored as the route's
+    # `raw`, so that rebuilding the dispatched slot from `raw` (middleware registered later) keeps the route off-reader
+    from analysis.guards import struct_constructions
+    n_mark = 0
+    for cb, ci, cj, cst in struct_constructions(facts, "server::OffReaderHandler"):
+        if cb.path.startswith("<") and "Clone" in cb.path:
+            continue
+        n_mark += 1
+        csym = Sym(cb)
+        v = csym.rvalue(cst["rv"])
+        payload = render(v)
+        inner_ok = "wrap_with_middlewares" not in payload and "MiddlewarePipeline" not in payload and ".dispatched" not in payload
+        routed = False
+        for x, t in cb.calls():
+            if t["callee"]["name"] in ("insert_route", "with_erased_handler") and any(v == y or any(z == v for z in walk(y)) for y in [csym.op(a) for a in t["args"]]):
+                routed = True
+        for eb, ei, ej, est in [c for et in ("server::RouterMapEntry",) for c in struct_constructions(facts, et) if c[0] is cb]:
+            d = dict(Sym(eb).rvalue(est["rv"])[3])
+            if any(z == v for z in walk(d.get("raw", ("?",)))):
+                routed = True
+        R.check(inner_ok and routed, "blocking-marker-in-raw", cb.path, "the off-reader marker wraps the leaf handler and is stored as the route's raw handler",
+                "OffReaderHandler is built around %s and %s: a middleware registered after the route rebuilds the dispatched handler from `raw` and the route "
+                "silently becomes inline (runs on the reader, takes no permit, panics escape catch_unwind)" % (payload[:90], "is registered as raw" if routed else "is not what the route keeps as raw"),
+                cst.get("span"), "insert_route(path, Arc::new(OffReaderHandler(leaf)))")
+    R.floor("blocking-marker-in-raw", n_mark, 4, "OffReaderHandler constructions (the with_*_blocking constructors)")
 
     # ---------------- execution-forwarded ---------------------------------------------------------------------------
     impls = facts.impls_of("server::HandlerErased")
